@@ -11,6 +11,7 @@
 -/
 import GoNeat.Proofs.ParFrameMut
 import GoNeat.Proofs.ParFrameAtomic
+import GoNeat.Proofs.EpochRegistry
 
 set_option linter.unusedSectionVars false
 set_option linter.unusedVariables false
@@ -61,7 +62,7 @@ theorem ViewExt.congr {L L' : Local W} {g g' : Genome W} (h : ViewExt L L' g) (h
 structure EpochCtx (reg0 : Reg W) (H P0 : List (Genome W)) : Prop where
   inv : C03.Inv reg0 H
   pool : PoolOk reg0 P0
-  sub : ∀ g ∈ P0, g ∈ H
+  cov : ∀ g ∈ P0, GenomeIn H g
 
 /-- the view contains the bindings of the whole history -/
 def Base (H : List (Genome W)) (L : Local W) : Prop := (∀ b ∈ binds H, b ∈ L.B) ∧ (∀ p ∈ roles H, p ∈ L.R)
@@ -81,19 +82,20 @@ theorem Holds.mono {L L' : Local W} {g : Genome W} (h : Holds L g) (hg : ViewGro
 structure GenOk (reg0 : Reg W) (P0 : List (Genome W)) (L : Local W) (g1 : Genome W) : Prop where
   wft : WFT g1
   src : ∃ g0, Fits reg0 P0 g0 ∧ LStep g0 g1
+  wit : ∃ x, x ∈ P0
   holds : Holds L g1
 
 theorem GenOk.mono {reg0 : Reg W} {P0 : List (Genome W)} {L L' : Local W} {g : Genome W} (h : GenOk reg0 P0 L g)
-    (hg : ViewGrow L L') : GenOk reg0 P0 L' g := ⟨h.wft, h.src, h.holds.mono hg⟩
+    (hg : ViewGrow L L') : GenOk reg0 P0 L' g := ⟨h.wft, h.src, h.wit, h.holds.mono hg⟩
 
-theorem GenOk.of_fits {reg0 : Reg W} {P0 : List (Genome W)} {L : Local W} {g : Genome W} (hf : Fits reg0 P0 g)
-    (hh : Holds L g) : GenOk reg0 P0 L g := ⟨hf.wft, ⟨g, hf, LStep.refl g⟩, hh⟩
+theorem GenOk.of_fits {reg0 : Reg W} {P0 : List (Genome W)} {L : Local W} {g x : Genome W} (hx : x ∈ P0)
+    (hf : Fits reg0 P0 g) (hh : Holds L g) : GenOk reg0 P0 L g := ⟨hf.wft, ⟨g, hf, LStep.refl g⟩, ⟨x, hx⟩, hh⟩
 
 theorem fits_headLe {reg0 : Reg W} {P0 : List (Genome W)} {g : Genome W} (hf : Fits reg0 P0 g) : HeadLe reg0.nextInn g :=
   fun h0 h0m => hf.rinv.above.1 h0 (List.mem_of_mem_take h0m)
 
-theorem holds_of_mem {H : List (Genome W)} {L : Local W} (hb : Base H L) {g : Genome W} (hg : g ∈ H) : Holds L g :=
-  ⟨fun x hx => hb.1 _ (mem_binds_of_mem hg hx), fun n hn => hb.2 _ (mem_roles_of_mem hg hn)⟩
+theorem holds_of_mem {H : List (Genome W)} {L : Local W} (hb : Base H L) {g : Genome W} (hg : GenomeIn H g) : Holds L g :=
+  ⟨fun x hx => hb.1 _ (hg.1 _ (List.mem_map_of_mem hx)), fun n hn => hb.2 _ (hg.2 _ (List.mem_map_of_mem hn))⟩
 
 theorem dup_ok {reg0 : Reg W} {P0 : List (Genome W)} {L : Local W} {g d : Genome W} (id : Int) (hf : Fits reg0 P0 g)
     (hh : Holds L g) (h : g.duplicate id = .ok d) : Fits reg0 P0 d ∧ Holds L d := by
@@ -147,9 +149,9 @@ theorem mutateBabyP_valid {bi : Int} (o : EpochOpts W) (g0 : Genome W) (rs : Lis
   · exact (structStageP_valid o g0 _ _ L hw hh hd).bind (fun L' r hp => paramStage_valid o r hp)
 
 /-- from the mutator postcondition to `GenOk` -/
-theorem genOk_of_post {reg0 : Reg W} {P0 : List (Genome W)} {L L' : Local W} {g0 g1 : Genome W} {b : Bool} {rs' : List Nat}
-    (hf : Fits reg0 P0 g0) (hp : MutPost g0 L L' (.ok ((g1, b), rs'))) : GenOk reg0 P0 L' g1 ∧ ViewGrow L L' :=
-  ⟨⟨hp.1, ⟨g0, hf, hp.2.1⟩, hp.2.2.holds⟩, hp.2.2.grow⟩
+theorem genOk_of_post {reg0 : Reg W} {P0 : List (Genome W)} {L L' : Local W} {g0 g1 x : Genome W} {b : Bool} {rs' : List Nat}
+    (hx : x ∈ P0) (hf : Fits reg0 P0 g0) (hp : MutPost g0 L L' (.ok ((g1, b), rs'))) : GenOk reg0 P0 L' g1 ∧ ViewGrow L L' :=
+  ⟨⟨hp.1, ⟨g0, hf, hp.2.1⟩, ⟨x, hx⟩, hp.2.2.holds⟩, hp.2.2.grow⟩
 
 /-! ### one offspring -/
 
@@ -209,7 +211,7 @@ theorem pickDad_mem (o : EpochOpts W) (s : Species W) (sorted : List (Species W)
         simp only [Except.ok.injEq, Prod.mk.injEq] at hd
         obtain ⟨rfl, _⟩ := hd
         have hdm : d ∈ sp.orgs := List.mem_of_mem_head? hhead
-        rcases pickOtherSpecies_mem s sorted 5 s sp rs3 rs4' hpick with rfl | hsp
+        rcases C01.pickOtherSpecies_mem s sorted 5 s sp rs3 rs4' hpick with rfl | hsp
         · exact hs d hdm
         · exact hsorted sp hsp d hdm
 
@@ -221,14 +223,10 @@ theorem mateChild_ok {reg0 : Reg W} {H P0 : List (Genome W)} (ctx : EpochCtx reg
   have fd := ctx.pool _ hd
   have hl : NodeLineage mom.genome dad.genome := fm.nodes _ hd
   have hh : SharedHead mom.genome dad.genome := fm.head _ hd
-  have hp1 : ∀ b ∈ mom.genome.genes.map geneBind, b ∈ binds H := fun b hb' => by
-    obtain ⟨x, hx, rfl⟩ := List.mem_map.mp hb'; exact mem_binds_of_mem (ctx.sub _ hm) hx
-  have hq1 : ∀ r ∈ mom.genome.nodes.map nodeRole, r ∈ roles H := fun r hr => by
-    obtain ⟨x, hx, rfl⟩ := List.mem_map.mp hr; exact mem_roles_of_mem (ctx.sub _ hm) hx
-  have hp2 : ∀ b ∈ dad.genome.genes.map geneBind, b ∈ binds H := fun b hb' => by
-    obtain ⟨x, hx, rfl⟩ := List.mem_map.mp hb'; exact mem_binds_of_mem (ctx.sub _ hd) hx
-  have hq2 : ∀ r ∈ dad.genome.nodes.map nodeRole, r ∈ roles H := fun r hr => by
-    obtain ⟨x, hx, rfl⟩ := List.mem_map.mp hr; exact mem_roles_of_mem (ctx.sub _ hd) hx
+  have hp1 : ∀ b ∈ mom.genome.genes.map geneBind, b ∈ binds H := (ctx.cov _ hm).1
+  have hq1 : ∀ r ∈ mom.genome.nodes.map nodeRole, r ∈ roles H := (ctx.cov _ hm).2
+  have hp2 : ∀ b ∈ dad.genome.genes.map geneBind, b ∈ binds H := (ctx.cov _ hd).1
+  have hq2 : ∀ r ∈ dad.genome.nodes.map nodeRole, r ∈ roles H := (ctx.cov _ hd).2
   have hold : ∀ {c : Genome W}, ((∀ b ∈ c.genes.map geneBind, b ∈ binds H) ∧ (∀ r ∈ c.nodes.map nodeRole, r ∈ roles H)) →
       Holds L c := fun h => ⟨fun x hx => hb.1 _ (h.1 _ (List.mem_map_of_mem hx)), fun n hn => hb.2 _ (h.2 _ (List.mem_map_of_mem hn))⟩
   unfold mateChild at hc
@@ -250,14 +248,14 @@ theorem reproduceOneP_valid {reg0 : Reg W} {H P0 : List (Genome W)} (ctx : Epoch
     (rs : List Nat) (L : Local W) (hchamp : champ.genome ∈ P0) (hs : ∀ x ∈ s.orgs, x.genome ∈ P0)
     (hsorted : ∀ sp ∈ sorted, ∀ x ∈ sp.orgs, x.genome ∈ P0) (hb : Base H L) (hst : StOk reg0 P0 L st) :
     PValid reg0.nextInn (OnePost reg0 P0 L st) L (reproduceOneP o generation s sorted champ count st rs) := by
-  have hin : ∀ g ∈ P0, Fits reg0 P0 g ∧ Holds L g := fun g hg => ⟨ctx.pool g hg, holds_of_mem hb (ctx.sub g hg)⟩
+  have hin : ∀ g ∈ P0, Fits reg0 P0 g ∧ Holds L g := fun g hg => ⟨ctx.pool g hg, holds_of_mem hb (ctx.cov g hg)⟩
   -- a mutated baby genome finishes the offspring
   have fin : ∀ {g0 : Genome W} (hf : Fits reg0 P0 g0) {L' : Local W} {g1 : Genome W} {ms : Bool} {rs' : List Nat}
       (hp : MutPost g0 L L' (.ok ((g1, ms), rs'))) (a b c : Bool) (hfit : W),
       ViewGrow L L' ∧ StOk reg0 P0 L' (finishP generation g1 a b c hfit st) ∧
         (finishP generation g1 a b c hfit st).babies.length = st.babies.length + 1 := by
     intro g0 hf L' g1 ms rs' hp a b c hfit
-    obtain ⟨hgo, hgr⟩ := genOk_of_post hf hp
+    obtain ⟨hgo, hgr⟩ := genOk_of_post hchamp hf hp
     exact ⟨hgr, stOk_finish hst hgr hgo generation a b c hfit⟩
   unfold reproduceOneP
   simp only
@@ -278,7 +276,7 @@ theorem reproduceOneP_valid {reg0 : Reg W} {H P0 : List (Genome W)} (ctx : Epoch
       · exact .done trivial
       · rename_i g0 hd
         obtain ⟨f0, h0⟩ := dup_ok count (hin _ hchamp).1 (hin _ hchamp).2 hd
-        obtain ⟨h1, h2⟩ := stOk_finish hst (ViewGrow.refl L) (GenOk.of_fits f0 h0) generation false false false zero
+        obtain ⟨h1, h2⟩ := stOk_finish hst (ViewGrow.refl L) (GenOk.of_fits hchamp f0 h0) generation false false false zero
         exact .done ⟨ViewGrow.refl L, h1, h2⟩
     · split
       · exact .done trivial
@@ -328,7 +326,7 @@ theorem reproduceOneP_valid {reg0 : Reg W} {H P0 : List (Genome W)} (ctx : Epoch
             split
             · exact .done trivial
             · exact .done (fin fc hp _ _ _ _)
-          · obtain ⟨h1, h2⟩ := stOk_finish hst (ViewGrow.refl L) (GenOk.of_fits fc hcH) generation false true false zero
+          · obtain ⟨h1, h2⟩ := stOk_finish hst (ViewGrow.refl L) (GenOk.of_fits hchamp fc hcH) generation false true false zero
             exact .done ⟨ViewGrow.refl L, h1, h2⟩
 
 /-! ### the whole goroutine -/
